@@ -243,6 +243,12 @@ func VerifH_C10_fmp4() {
 			seq++
 			vt := &fmp4.PartTrack{ID: 1, BaseTime: baseV}
 			ns := 1 + verifChoice("nsamples", verifParam("MAXSAMPLES", 2))
+			// DUPTRAFS=n: the fragment's n video samples travel in n track fragments (traf) of the same track inside
+			// one moof, which ISO BMFF allows
+			dup := verifParam("DUPTRAFS", 0)
+			if dup > 0 {
+				ns = dup
+			}
 			cur := int64(baseV)
 			for k := 0; k < ns; k++ {
 				dur := uint32(verifRangeI64("vdur", 0, int64(1)<<uint(verifParam("VDURBITS", 20))))
@@ -256,6 +262,10 @@ func VerifH_C10_fmp4() {
 				want = append(want, exp{track: 0, dts: cur - origin, pts: cur - origin + int64(off), payload: unit, seg: s, segFirst: segFirst})
 				tag++
 				cur += int64(dur)
+				if dup > 0 && k < ns-1 {
+					p.Tracks = append(p.Tracks, vt)
+					vt = &fmp4.PartTrack{ID: 1, BaseTime: uint64(cur)}
+				}
 			}
 			baseV = uint64(cur)
 			p.Tracks = append(p.Tracks, vt)
